@@ -301,6 +301,20 @@ func (ba *flatBlobAccess) GetFromComposite(ctx context.Context, parentDigest, ch
 		}
 		ba.refreshesBlobsDurationGetFromComposite.Observe(time.Since(refreshStart).Seconds())
 		ba.refreshesBlobsGetFromComposite.Observe(1)
+	} else {
+		// The lock was dropped while slicing. Block rotations
+		// that took place in the meantime may have shifted or
+		// released the block holding the parent, so the
+		// location obtained earlier can no longer be used.
+		parentLocation, err = ba.keyLocationMap.Get(parentKey)
+		if err != nil {
+			// The parent has disappeared. The child has
+			// been extracted successfully, but there is
+			// nothing to create key-location map entries
+			// against.
+			ba.lock.Unlock()
+			return bChild
+		}
 	}
 
 	// Create key-location map entries for each of the slices. This
